@@ -16,6 +16,8 @@ RULES = {
              "the four values being the FileState counters returned by get_state_snapshot (field mapping checked)",
     "C12.3": "consumed-marks (WMC + GB): set_checkpointed_true is called only from read_next, batch_read_for_topic and recovery; at the two read sites the call is dominated by the "
              "`cursor offset >= block.used` edge and by checkpoint == true; at the recovery sites by the presence of a persisted position and the block id is loaded from the chain; "
+             "a mark made from a closure of a read path is accepted only as the drain of a collector (a Vec of ids filled in the function), and then every push into the collector is "
+             "judged as the mark it stands for (the position compared with block.used must be the reached one: the cursor's offset or a carrier of the committed offset); "
              "every other tracker mutator is called only from its frozen caller set",
     "C12.4": "idempotence (write-only-flag contradiction rule): the per-file consumed counter may only be incremented under control of the previous value of the per-block "
              "is_checkpointed flag (an atomic read-modify-write such as swap/compare_exchange in the same body); a flag that is stored but never loaded guards nothing",
@@ -283,6 +285,64 @@ def check_ready_predicate(ctx, facts):
         ctx.violate("C12.2", F, "sent-path-differs", fc.relfile, sends[0].line, "the path sent for deletion is not the function's file_path argument")
 
 
+def judge_mark(ctx, b, s, id_op, caller, idem, via=None, facts=None, mark_site=None):
+    """s: the site that stands for the mark (the call itself, or the push of the id into a collector)"""
+    # (1) cursor at end of block
+    end_ok = False
+    cursor_ok = False
+    planned = False
+    from .c02 import end_guards, _is_cursor_offset_load
+    from .core.symexpr import expr as _expr, strip_refs as _sr
+    for edge, off_op in end_guards(b):
+        if not b.edge_guards(edge, s.bb):
+            continue
+        # same block whose id is marked
+        asrc, _, _ = origins(b, id_op)
+        if not any(o.kind == "field" and o.what[1] == "id" for o in asrc):
+            continue
+        # what is compared with block.used must be a position the consumer has really reached:
+        # the cursor's own offset, or that offset plus the size of the entry a consuming
+        # read_next has just read (and returns). A *planned* end of range is not: the parser
+        # may stop before it (entry cap, byte budget, incomplete entry)
+        ea = _sr(_expr(b, off_op))
+        reached = _is_cursor_offset_load(b, off_op)
+        if reached:
+            cursor_ok = True
+        if not reached and facts is not None:
+            # the position the parser has reached: the value it commits as the cursor offset
+            from .c02 import cursor_carriers
+            if op_local(b.resolve_copy(off_op)) in cursor_carriers(facts, b, "cur_block_offset"):
+                reached = True
+        if not reached and ea[0] == "Add":
+            osrc2, _, _ = origins(b, off_op)
+            if any(o.kind == "call" and o.what.endswith("block::Block::read") for o in osrc2) and guarded(b, s.bb, checkpoint_edges(b)):
+                reached = True
+        if reached:
+            end_ok = True
+        else:
+            planned = True
+    if end_ok:
+        ctx.ok("C12.3", caller, "mark dominated by `cursor offset >= block.used`" + (" (%s)" % via if via else ""), b.relfile, s.line)
+    elif planned:
+        ctx.violate("C12.3", caller, "mark-on-planned-position", b.relfile, s.line,
+                    "a block is marked consumed because a position that has only been planned (not the cursor's own offset, nor the end of an entry this call "
+                    "returns) reaches block.used: the parser can stop earlier (entry cap, byte budget, incomplete entry), the cursor is then committed inside the block "
+                    "and the file can be reclaimed while entries of it are still unconsumed")
+    else:
+        ctx.violate("C12.3", caller, "mark-not-at-end-of-block", b.relfile, s.line, "a block is marked consumed without the cursor being at its end")
+    # (2) consuming read, or a mark justified by the shared cursor standing at the end of the
+    #     block (all its entries were consumed earlier) provided marks are idempotent
+    if mark_site is not None and guarded(mark_site.body, mark_site.bb, checkpoint_edges(mark_site.body)):
+        ctx.ok("C12.3", caller, "the mark (in the commit closure) is guarded by checkpoint", mark_site.body.relfile, mark_site.line)
+    elif guarded(b, s.bb, checkpoint_edges(b)):
+        ctx.ok("C12.3", caller, "mark is guarded by checkpoint", b.relfile, s.line)
+    elif end_ok and cursor_ok and idem and (caller != "walrus_read::batch_read_for_topic" or guarded(b, s.bb, stateful_edges(b)[0])):
+        ctx.ok("C12.3", caller, "mark justified by the shared cursor at end of block; marks are idempotent (C12.4)", b.relfile, s.line)
+    else:
+        ctx.violate("C12.3", caller, "mark reachable from a non-consuming read", b.relfile, s.line,
+                    "set_checkpointed_true is reachable with checkpoint=false and is not an idempotent, cursor-justified mark: peeks/empty polls count blocks as consumed")
+
+
 def check_marks(ctx, facts):
     idem = idempotent_marks(facts)
     cs = callers_of(facts, "allocator::BlockStateTracker::set_checkpointed_true")
@@ -291,55 +351,33 @@ def check_marks(ctx, facts):
         for s in sites:
             b = s.body
             ctx.saw_body(b)
+            base = re.sub(r"::\{closure#\d+\}.*$", "", caller)
+            if base in ("walrus_read::read_next", "walrus_read::batch_read_for_topic") and base != caller:
+                # a mark inside a closure of a read path: accepted only as the drain of a collector - the id comes
+                # from iterating a captured Vec - and then every push into that Vec in the parent is judged as
+                # the mark site it stands for
+                n_read += 1
+                from .core.symexpr import expr as _expr, strip_refs as _sr, show as _show
+                parent = facts.body(base.split("::")[-1])
+                txt = _show(_sr(_expr(b, s.node["args"][0])), 10)
+                m = re.search(r"_1\.(\w+)", txt)
+                coll = [l for l in parent.defs if m and parent.local_name(l) == m.group(1) and "Vec<" in parent.local_ty(l)] if m else []
+                pushes = []
+                for c in parent.calls(re.compile(r"Vec::push$|Vec(::<[^>]*>)?::push$")):
+                    bl = borrowed_local(parent, c.node["args"][0])
+                    if bl in coll:
+                        pushes.append(c)
+                if not coll or not pushes or "next(" not in txt and "iter" not in txt:
+                    ctx.violate("C12.3", base, "mark-in-closure-not-judged", b.relfile, s.line,
+                                "set_checkpointed_true is called from a closure of %s with an id (%s) that is not the drain of a collector filled in the function: the rule cannot "
+                                "tie the mark to a position the consumer has reached (fail closed)" % (base, txt[:80]))
+                    continue
+                for c in pushes:
+                    judge_mark(ctx, parent, c, c.node["args"][1], base, idem, via="pushed into `%s`, which the commit closure marks" % m.group(1), facts=facts, mark_site=s)
+                continue
             if caller in ("walrus_read::read_next", "walrus_read::batch_read_for_topic"):
                 n_read += 1
-                # (1) cursor at end of block
-                end_ok = False
-                cursor_ok = False
-                planned = False
-                from .c02 import end_guards, _is_cursor_offset_load
-                from .core.symexpr import expr as _expr, strip_refs as _sr
-                for edge, off_op in end_guards(b):
-                    if not b.edge_guards(edge, s.bb):
-                        continue
-                    # same block whose id is marked
-                    asrc, _, _ = origins(b, s.node["args"][0])
-                    if not any(o.kind == "field" and o.what[1] == "id" for o in asrc):
-                        continue
-                    # what is compared with block.used must be a position the consumer has really reached:
-                    # the cursor's own offset, or that offset plus the size of the entry a consuming
-                    # read_next has just read (and returns). A *planned* end of range is not: the parser
-                    # may stop before it (entry cap, byte budget, incomplete entry)
-                    ea = _sr(_expr(b, off_op))
-                    reached = _is_cursor_offset_load(b, off_op)
-                    if reached:
-                        cursor_ok = True
-                    if not reached and ea[0] == "Add":
-                        osrc2, _, _ = origins(b, off_op)
-                        if any(o.kind == "call" and o.what.endswith("block::Block::read") for o in osrc2) and guarded(b, s.bb, checkpoint_edges(b)):
-                            reached = True
-                    if reached:
-                        end_ok = True
-                    else:
-                        planned = True
-                if end_ok:
-                    ctx.ok("C12.3", caller, "mark dominated by `cursor offset >= block.used`", b.relfile, s.line)
-                elif planned:
-                    ctx.violate("C12.3", caller, "mark-on-planned-position", b.relfile, s.line,
-                                "a block is marked consumed because a position that has only been planned (not the cursor's own offset, nor the end of an entry this call "
-                                "returns) reaches block.used: the parser can stop earlier (entry cap, byte budget, incomplete entry), the cursor is then committed inside the block "
-                                "and the file can be reclaimed while entries of it are still unconsumed")
-                else:
-                    ctx.violate("C12.3", caller, "mark-not-at-end-of-block", b.relfile, s.line, "a block is marked consumed without the cursor being at its end")
-                # (2) consuming read, or a mark justified by the shared cursor standing at the end of the
-                #     block (all its entries were consumed earlier) provided marks are idempotent
-                if guarded(b, s.bb, checkpoint_edges(b)):
-                    ctx.ok("C12.3", caller, "mark is guarded by checkpoint", b.relfile, s.line)
-                elif end_ok and cursor_ok and idem and (caller != "walrus_read::batch_read_for_topic" or guarded(b, s.bb, stateful_edges(b)[0])):
-                    ctx.ok("C12.3", caller, "mark justified by the shared cursor at end of block; marks are idempotent (C12.4)", b.relfile, s.line)
-                else:
-                    ctx.violate("C12.3", caller, "mark reachable from a non-consuming read", b.relfile, s.line,
-                                "set_checkpointed_true is reachable with checkpoint=false and is not an idempotent, cursor-justified mark: peeks/empty polls count blocks as consumed")
+                judge_mark(ctx, b, s, s.node["args"][0], caller, idem, facts=facts)
             elif caller == "walrus::Walrus::startup_chore":
                 asrc, _, _ = origins(b, s.node["args"][0])
                 from_chain = any(o.kind == "field" and o.what[1] == "chain" for o in asrc) and any(o.kind == "field" and o.what[1] == "id" for o in asrc)
